@@ -9,6 +9,7 @@ import (
 	"os"
 	"path/filepath"
 	"sync"
+	"unicode/utf8"
 )
 
 const (
@@ -183,6 +184,12 @@ func (c *Config) Validate() error {
 
 	if c.TxCriticalThreshold <= c.TxWarningThreshold || c.TxCriticalThreshold >= 100 {
 		return fmt.Errorf("%w: Transaction critical threshold must be between warning threshold and 99", ErrInvalidConfig)
+	}
+
+	// The manifest is JSON: a path that is not valid UTF-8 would be stored with
+	// its invalid bytes replaced and loaded back as a different path
+	if !utf8.ValidString(c.WALDir) || !utf8.ValidString(c.SSTDir) {
+		return fmt.Errorf("%w: directory paths must be valid UTF-8", ErrInvalidConfig)
 	}
 
 	return nil
